@@ -812,7 +812,7 @@ fn drive_args(defines: &[(String, DV)], style: usize) -> Vec<String> {
     for (n, d) in defines {
         let nv = format!("{}{}", n, d.spelling());
         match style {
-            0 => a.push(format!("-d{}", nv)),
+            0 | 4 => a.push(format!("-d{}", nv)),
             1 => a.push(format!("--define={}", nv)),
             _ => {
                 // detached form, as used by the repository's own driver tests
@@ -820,6 +820,10 @@ fn drive_args(defines: &[(String, DV)], style: usize) -> Vec<String> {
                 a.push(nv);
             }
         }
+    }
+    if style == 4 {
+        // a define is final under every documented option
+        a.push("--debug-no-optimize-static".to_string());
     }
     a
 }
@@ -837,7 +841,7 @@ fn drive_cases(thorough: bool) -> Vec<DriveCase> {
                 for da in 0..8usize {
                     for (bi, db) in bopts.iter().enumerate() {
                         for (xi, x) in extras.iter().enumerate() {
-                            for style in 0..4 {
+                            for style in 0..5 {
                                 let mut defines = vec![];
                                 if let Some((n, d)) = x {
                                     defines.push((n.to_string(), *d));
